@@ -1062,7 +1062,7 @@ def main(prop, tier, seed):
         'wall_s': round(wall, 1), 'violations': len(viol),
     }
     os.makedirs(os.path.join(ROOT, 'evidence'), exist_ok=True)
-    with open(os.path.join(ROOT, 'evidence', prop + '.json'), 'w') as f:
+    with open(os.path.join(ROOT, 'evidence', prop + '.json') if not os.environ.get('VERIF_NO_EVIDENCE') else os.devnull, 'w') as f:
         json.dump(ev_, f, indent=1, default=str)
     print('%s tier=%s: %d SMT queries (%d unsat, %d sat), %d known-finding, %d violation, %s, %.0fs' % (
         prop, tier, q.n, ev_['coverage']['queries_discharged'], ev_['coverage']['queries_sat'], len(out['known']), len(viol),
